@@ -144,3 +144,37 @@ def first_diff(pred, obs, prefix=False):
         if a != b:
             return (i, a, b)
     return None
+
+
+def parse_compact(step):
+    """STEP record with compact strings -> behaviour with uniform event records and op records."""
+    evs = []
+    for x in step["evs"]:
+        ev, f, t, c, res, v, n = x.split("|")
+        evs.append({"ev": ev, "f": int(f), "t": int(t), "c": int(c), "res": res, "v": v, "n": int(n), "sync": False})
+    prog = {}
+    for f, ops in step["prog"].items():
+        lst = []
+        for o in ops:
+            for k in ("send", "recv", "close", "launch", "end"):
+                if o.startswith(k):
+                    lst.append({"k": k, "c": int(o[len(k):])})
+                    break
+        prog[f] = lst
+    return {"prog": prog, "evs": evs, "end": step["end"], "bad": step["bad"]}
+
+
+def maximal_histories(steps):
+    """Keep the printed histories that are not a proper prefix of another one (each step appends one or
+    two events, and the printed histories are the paths of TLC's search tree, so it is enough to strike
+    the parent of every history)."""
+    keys = {}
+    for s in steps:
+        keys[tuple(s["evs"])] = s
+    non_max = set()
+    for k in keys:
+        if len(k) >= 1:
+            non_max.add(k[:-1])
+        if len(k) >= 2:
+            non_max.add(k[:-2])
+    return [s for k, s in keys.items() if k not in non_max]
